@@ -3,16 +3,19 @@ PROP = dict(
     id="C11",
     module="FV.C11.Props",
     coq_targets=["theories/C11/Props.vo", "theories/C11/Tie.vo"],
-    theorems=["compile_preserves_noinline_partial", "compile_prog_preserves_noinline_partial",
-              "compile_preserves_nochain_partial", "compile_preserves_noinline_any_build_partial",
+    theorems=["compile_repo_preserves_partial", "compile_prog_repo_preserves_partial",
+              "compile_preserves_inline_any_ligature_build_partial", "compile_preserves_noinline_any_build_partial",
+              "repo_inline_ligature_refuted_and_others_agree", "repo_later_rule_wins_refuted",
               "unrepaired_inline_single_refuted", "unrepaired_inline_multiple_refuted",
-              "unrepaired_inline_ligature_refuted", "repaired_inline_witnesses_agree",
-              "inline_single_rule_lookup_sound", "inline_multiple_rule_lookup_sound",
-              "inline_ligature_rule_lookup_sound", "inline_ligature_lookup_forms_rule_ligature", "later_rule_wins_refuted",
+              "unrepaired_inline_ligature_refuted", "with_ligature_repair_witnesses_agree",
+              "with_ligature_repair_inline_single_rule_lookup_sound",
+              "with_ligature_repair_inline_multiple_rule_lookup_sound",
+              "with_ligature_repair_inline_ligature_rule_lookup_sound",
+              "wellformed_ligature_lookup_forms_rule_ligature",
               "single_lookup_first_match", "multiple_lookup_first_match", "alternate_lookup_first_match",
               "ligature_lookup_longest_first", "single_pos_first_match", "pair_pos_subtables",
               "pair_first_match_when_compatible", "class_pair_shadowing_example",
-              "unrepaired_numeric_range_excludes_end_refuted", "numeric_range_includes_end"],
+              "unrepaired_numeric_range_excludes_end_refuted", "repo_numeric_range_includes_end"],
     prelude="From FV.C11 Require Import Model Tie.\nFrom Coq Require Import List NArith ZArith Bool.",
     harness_args=lambda tier, seed: ["--seed", str(seed), "--n", str(N[tier])],
     shard=13,
@@ -44,9 +47,14 @@ PROP = dict(
                  "class kerning follows the specification's subtable behaviour (first subtable covering the first glyph decides); "
                  "literal first-match is proved when the class pairs fit one subtable",
                  "ligature rules: the rule with most components wins, ties to the earlier (the spec leaves ordering to the compiler)",
-                 "theorems cover files without INLINE contextual rules (contextual rules calling named lookups, at any nesting, and "
-                 "`ignore` rules are covered); inline contextual rules are modelled and exercised, not proved: the full statement "
-                 "is refuted for the compiler before the repairs of 2026-09 and open after them",
+                 "headline theorem compile_repo_preserves_partial is about compile_repo = the build in /repo (inline single and "
+                 "multiple repairs applied, inline ligature repair not): it covers every elaborated file whose inline contextual "
+                 "rules are inline single / multiple substitutions; inline LIGATURE rules are excluded by hypothesis (for them the "
+                 "statement is refuted for compile_repo: known finding contextual-inline-ligature-shared-lookup); theorems named "
+                 "with_ligature_repair_* hold only if that repair is applied, unrepaired_* are about the compiler before the repairs",
+                 "hypothesis full_ok (inline target = first input class with one replacement per glyph, no self-contradicting inline "
+                 "rule, contextual rules name earlier lookups only) holds of what elab produces from accepted files; this is not "
+                 "proved about elab",
                  "the model is parametrised by six repair flags (numeric range end, by-NULL promotion, empty named lookup in a "
                  "contextual rule, three inline-rule repairs) which the harness probes on fixed inputs on every run and prints "
                  "into every term, so the same check runs on the repaired and on the unrepaired tree and reports the same keys",
@@ -58,6 +66,6 @@ PROP = dict(
 )
 
 MANIFEST = dict(
-    text='Small verified compiler in Coq: feature-file subset AST, the fea-rs walk that groups rules into lookups (elab), source semantics interp_fea, abstract OpenType tables with the lookup application algorithm apply_ot, compile_mini mirroring fea-rs/write-fonts builders. Proved for all programs without inline contextual rules, all glyph strings, flags, GDEF classes and selections: apply_ot (compile_mini e) = interp_fea e (single, multiple, alternate, ligature substitution; chaining contextual substitution calling named lookups at any nesting, ignore rules; single and pair positioning), with per-kind refinement theorems (first matching rule vs per-glyph maps, longest-first ligatures, specific pairs before class subtables). Machine-checked witnesses (replayed on the real compiler on every run): later-rule-wins on conflicting rules refutes the statement without the consistency hypothesis; the unrepaired compiler (three inline-rule defects, numeric glyph ranges excluding their end) is refuted, and the repaired one agrees on the same witnesses. Tie: generated programs compiled by the real fea_rs::Compiler, real GSUB/GPOS/GDEF decoded and compared behaviourally with the model and the source semantics on all strings up to length 3-4 plus random longer ones.',
-    note='Trusted: Coq kernel + vm_compute; hand-written model and its correspondence run; Rust harness (decoder, twin cross-checked in Coq per case). No axioms (Print Assumptions: closed under the global context). Inline contextual rules, elaboration vs. a declarative spec reading, shaper-side fallbacks are not proved.',
+    text='Small verified compiler in Coq: feature-file subset AST, the fea-rs walk that groups rules into lookups (elab), source semantics interp_fea, abstract OpenType tables with the lookup application algorithm apply_ot, compile_mini mirroring fea-rs/write-fonts builders. Proved for the compiler in /repo (compile_repo) for all programs whose inline contextual rules are inline single / multiple substitutions, all glyph strings, flags, GDEF classes and selections: apply_ot (compile_repo e) = interp_fea e (single, multiple, alternate, ligature substitution; chaining contextual substitution with named nested lookups at any nesting and inline single/multiple rules sharing anonymous lookups, ignore rules; single and pair positioning), with per-kind refinement theorems (first matching rule vs per-glyph maps, longest-first ligatures, specific pairs before class subtables). Machine-checked witnesses (replayed on the real compiler on every run): later-rule-wins on conflicting rules refutes the statement without the consistency hypothesis; inline ligature rules refute it for /repo (known finding); the compiler before the repairs is refuted on three inline witnesses and on numeric ranges; theorems about the build with the inline-ligature repair are labelled conditional. Tie: generated programs compiled by the real fea_rs::Compiler, real GSUB/GPOS/GDEF decoded and compared behaviourally with the model and the source semantics on all strings up to length 3-4 plus random longer ones.',
+    note='Trusted: Coq kernel + vm_compute; hand-written model and its correspondence run; Rust harness (decoder, twin cross-checked in Coq per case). No axioms (Print Assumptions: closed under the global context). Inline ligature rules (known finding), elaboration vs. a declarative spec reading, shaper-side fallbacks are not proved.',
 )
